@@ -275,8 +275,17 @@ impl MT104 {
             });
         }
 
-        // Parse Sequence C (optional settlement details)
-        let field_32b = parser.parse_optional_field::<Field32B>("32B")?;
+        // Parse Sequence C (optional settlement details). When the sequence is present it starts
+        // with its mandatory field 32B: any other field of the sequence without it means 32B is missing
+        let mut field_32b = parser.parse_optional_field::<Field32B>("32B")?;
+        if field_32b.is_none()
+            && (parser.detect_field("19")
+                || parser.detect_field("71F")
+                || parser.detect_field("71G")
+                || parser.detect_variant_optional("53").is_some())
+        {
+            field_32b = Some(parser.parse_field::<Field32B>("32B")?);
+        }
         let field_19 = parser.parse_optional_field::<Field19>("19")?;
         let field_71f = parser.parse_optional_field::<Field71F>("71F")?;
         let field_71g = parser.parse_optional_field::<Field71G>("71G")?;
